@@ -76,6 +76,9 @@ def build_cases():
         for lab in sorted(miss):
             cases.append((scale, "miss", lab))
         cases.append((scale, "mono", None))
+        # the answer for a value does not depend on what was converted before it
+        for order in ("warm-then-out-of-range", "descending", "shuffled"):
+            cases.append((scale, "history", order))
     return cases
 
 
@@ -149,6 +152,32 @@ def one(ctx, rng, i):
         if got[0] != "refused":
             ctx.violation("unknown-label-not-refused", "%s(%r) gave %r; unknown labels must be refused"
                           % (l2v_name, x, got), {"function": l2v_name, "input": x, "got": got})
+    elif kind == "history":
+        span = list(range(-260, 361))
+        if x == "warm-then-out-of-range":
+            seq = list(range(0, 101)) + [v for v in span if v < 0 or v > 100] + list(range(0, 101))
+        elif x == "descending":
+            seq = span[::-1] + span
+        else:
+            seq = span + span
+            rng.shuffle(seq)
+        for lab in labels:            # the other direction too, interleaved history
+            call(l2v, lab)
+        for v in seq:
+            got = call(v2l, v)
+            ctx.ev()
+            exp = expected_label(rows, v)
+            if 0 <= v <= 100:
+                if got != ("ret", exp):
+                    ctx.violation("value-to-label-table", "%s(%d) gave %r after other conversions (%s), Appendix A says %r" % (v2l_name, v, got, x, exp),
+                                  {"function": v2l_name, "input": v, "got": got, "expected": exp, "history": x})
+                    break
+            elif got[0] != "refused":
+                ctx.violation("out-of-range-not-refused", "%s(%d) gave %r after other conversions (%s); values outside 0-100 must be refused" % (v2l_name, v, got, x),
+                              {"function": v2l_name, "input": v, "got": got, "history": x})
+                break
+        ctx.nontrivial(scale, kind, x)
+        ctx.count("history_sweeps")
     elif kind == "mono":
         # one direction only as the value grows, every label reached, in table order
         seq = []
